@@ -244,7 +244,8 @@ func init() {
 				// (the second bar is inside a moving-average update, waiting for its decorators' update goroutines, while the
 				// cancellation and the closing render's request arrive: its goroutine is not idle)
 				sp.Clients = append(sp.Clients, []Op{{K: "cancel"}}, []Op{{K: "ewma", B: 1, N: 1}, {K: "ewma", B: 1, N: 1}})
-				items = append(items, specItems("C03", sp, bound+1, []int{mcrt.StratFIFO, mcrt.StratNewest}, nil, c03Oracle)...)
+				// (three client threads: two deviations in both tiers; a third did not finish within the thorough budget)
+				items = append(items, specItems("C03", sp, 2, []int{mcrt.StratFIFO, mcrt.StratNewest}, nil, c03Oracle)...)
 			}
 			// the cancellation and the closing render's request both arrive while the bar's goroutine is busy (inside a
 			// TraverseDecorators callback): whatever it serves first, the last frame must show the bar aborted
